@@ -29,7 +29,10 @@ class AuthzHandling(object):
             return _usage_rules
 
         try:
-            _per_client = self.upstream_get("context").cdb[client_id]["token_usage_rules"]
+            # A copy, what is returned ends up in grants and tokens and is modified there
+            _per_client = copy.deepcopy(
+                self.upstream_get("context").cdb[client_id]["token_usage_rules"]
+            )
         except KeyError:
             pass
         else:
